@@ -156,9 +156,9 @@ def _spd(rec):
 
 
 @st.composite
-def _spd_part(draw, nmax):
+def _spd_part(draw, nmax, sizes=(5, 8, 1, 3, 2, 12)):
     # few distinct sizes: every new (n, order, ...) signature costs one XLA compilation (seconds)
-    sizes = [k for k in (5, 8, 1, 3, 2, 12) if k <= nmax]
+    sizes = [k for k in sizes if k <= nmax]
     n = sizes[draw(st.integers(0, len(sizes) - 1))]
     ints = draw(st.lists(st.integers(4, 256), min_size=n, max_size=n, unique=True))
     mult = draw(st.sampled_from(["simple", "simple", "simple", "double", "clustered"]))
@@ -277,12 +277,17 @@ def check_lanczos(rec):
         classes.append("padded" if a < order else "unpadded")
         # stochastic_logdet_from_lanczos on the exact quadrature: n * mean(e1^T log(T) e1)
         jax, jnp, jft = _jx()
-        c2 = np.asarray(rec["c2"], dtype=np.float64)
-        v2 = Q @ c2
-        T2, V2 = _run_tridiag(A, v2, shape, order, rec["jit"])
-        _check_decomposition(T2, V2, A, v2, lmax, "second_start:")
         logA = (Q * np.log(lam)) @ Q.T
-        want = n * 0.5 * (v @ logA @ v / (v @ v) + v2 @ logA @ v2 / (v2 @ v2))
+        want = n * float(v @ logA @ v / (v @ v))
+        T2 = T
+        if order >= len(set(lam.tolist())):
+            # second start vector (excites every eigen-direction: its quadrature is exact at this order, too)
+            c2 = np.asarray(rec["c2"], dtype=np.float64)
+            v2 = Q @ c2
+            T2, V2 = _run_tridiag(A, v2, shape, order, rec["jit"])
+            _check_decomposition(T2, V2, A, v2, lmax, "second_start:")
+            want = 0.5 * (want + n * float(v2 @ logA @ v2 / (v2 @ v2)))
+            classes.append("logdet_two_starts")
         stack = jnp.stack([jnp.asarray(T), jnp.asarray(T2)])
         got = float(jft.stochastic_logdet_from_lanczos(stack, n))
         close(got, want, "logdet_from_lanczos", tol=1e-9, scale=n * max(1.0, float(np.max(np.abs(np.log(lam))))))
@@ -433,7 +438,7 @@ def slq_recipes(draw, tier):
         rec["hh"] = rec["hh"] or [[1.0, 0.5]]
         m = 2
     else:
-        rec = draw(_spd_part(12))
+        rec = draw(_spd_part(12, sizes=(5, 8, 3, 1, 12)))
         m = [2, 4, 1, 2][draw(st.integers(0, 3))]
     n = rec["n"]
     rec.update(m=m, orth=orth, key=key,
